@@ -33,6 +33,10 @@ func (c *FCtx) frameAllowed(e *Env) *frameAllow {
 				fa.all = true
 				continue
 			}
+			if item == "allbytes" {
+				fa.ghostVars[c.memKey(types.Typ[types.Uint8])] = true
+				continue
+			}
 			if strings.HasSuffix(item, ".*") {
 				ex, err := parseSpec(strings.TrimSuffix(item, ".*"))
 				if err != nil {
